@@ -33,6 +33,16 @@ CAP_POOLS = {
     'as4only': 'AS4ONLY',
     'rich': 'RICH',
     'unknown': [MP, (66, b'\x01\x02'), (200, b'')],
+    # well-formed capabilities (value length right for their code) with contents the agent has no table entry for: the
+    # acceptance policy does not depend on them.  Capability values of the wrong length are NOT generated: the statement
+    # does not say how a malformed capability is answered.
+    'exotic1': [MP, (69, struct.pack('!HBB', 1, 129, 3))],                                   # add-path for an unknown family
+    'exotic2': [MP, (69, struct.pack('!HBB', 1, 1, 0)), (69, struct.pack('!HBB', 1, 1, 4))],  # add-path send/receive 0 and 4
+    'exotic3': [MP, (1, struct.pack('!HBB', 99, 0, 77)), (1, struct.pack('!HBB', 2, 0, 2))],  # multiprotocol for unknown families
+    'exotic4': [MP, (64, b''), (64, b'\x80\x78' + struct.pack('!HBB', 1, 1, 0x80) + struct.pack('!HBB', 99, 9, 0))],     # graceful restart forms
+    'exotic5': [MP, (71, struct.pack('!HBB', 1, 1, 0x80) + b'\x00\x00\x3c'), (5, struct.pack('!HHH', 1, 1, 2) + struct.pack('!HHH', 9, 9, 9))],
+    'exotic6': [MP, (73, b'\x03abc\x00'), (6, b''), (67, b'\x00' * 3), (66, b'\x01'), (70, b''), (128, b''), (131, b'\x01'), (72, b'\x00\x01\x01')],    # codes without a table entry
+    'exotic7': 'SPLIT',        # every capability in an optional parameter of its own is what peer_open already does; here: unknown parameter type is not used (it is an error per RFC)
 }
 
 
@@ -43,6 +53,8 @@ def caps_for(name, asn):
         return [MP, (2, b''), as4]
     if v == 'AS4ONLY':
         return [as4]
+    if v == 'SPLIT':
+        return [MP, (2, b''), (128, b''), (131, b'\x01'), (65, struct.pack('!I', asn)), (69, struct.pack('!HBB', 2, 1, 1) + struct.pack('!HBB', 1, 1, 2))]
     if v == 'RICH':
         return [MP, (1, struct.pack('!HBB', 2, 0, 1)), (2, b''), (128, b''), (70, b''), as4,
                 (69, struct.pack('!HBB', 1, 1, 3)), (64, b'\x00\x78')]
@@ -50,7 +62,7 @@ def caps_for(name, asn):
 
 
 def has_as4(name):
-    return CAP_POOLS[name] in ('AS4', 'AS4ONLY', 'RICH')
+    return CAP_POOLS[name] in ('AS4', 'AS4ONLY', 'RICH', 'SPLIT')
 
 
 def expected_caps(cfg):
